@@ -10,9 +10,11 @@ TInit ==
   /\ TBInit
   /\ cfg = Hdr.cfg
   /\ disk = Hdr.disk0
-  /\ rec = [f \in 1..Len(Hdr.cfg.key) |-> None]
-  /\ queue = [g \in {Hdr.cfg.group[f] : f \in 1..Len(Hdr.cfg.key)} |-> <<>>]
-  /\ active = 0
+  \* a scenario may start from any state reached earlier (exhaustive exploration of the implementation, E2)
+  /\ rec = IF Has(Hdr, "rec0") THEN Hdr.rec0 ELSE [f \in 1..Len(Hdr.cfg.key) |-> None]
+  /\ queue = IF Has(Hdr, "queue0") THEN [g \in {Hdr.cfg.group[f] : f \in 1..Len(Hdr.cfg.key)} |-> Hdr.queue0[g]]
+             ELSE [g \in {Hdr.cfg.group[f] : f \in 1..Len(Hdr.cfg.key)} |-> <<>>]
+  /\ active = IF Has(Hdr, "active0") THEN Hdr.active0 ELSE 0
   /\ last = Act("Init", 0, 0, {})
 
 G == [on |-> TRUE, d |-> E.del]
